@@ -10,6 +10,10 @@ def run(res, work, tier, seed):
                    Script="ScriptC09", Apps='{"a1","a2"}', Passers='{"p1"}', NObj=2)
     vlib.tallycore(work, res, "WeakNoRecheckUnderLock", expect="Conservation", Script="ScriptC09", Apps='{"a1","a2"}', Passers='{"p1"}', NObj=3, WeakNoRecheckUnderLock="TRUE")
     vlib.run_core_family(res, work, "c09", tier, seed, parts=16, clauses=CLAUSES, timeout=3400)
+    # the third get-or-create the property anchors: the shared bucket storage (bucketCache.mtx) - histograms created at the
+    # same moment in different scopes from specifications whose cache identities collide must each get their own bounds
+    # (samples recorded through a histogram that was handed another one's storage are delivered under the wrong buckets)
+    vlib.run_core_family(res, work, "c20", tier, seed, parts=4, clauses={"KeepsOwnBounds", "NoCrash"}, timeout=3400)
     from props import corestep
     corestep.run(res, work, tier, seed, "C09")   # step-level replay of the st-c09 scenarios through TallyCore.tla (drift, not a verdict)
     if tier == "thorough":
